@@ -286,17 +286,21 @@ def engine_core(prop, tier, seed, work):
 
 # ------------------------------------------------------------------------------- LoopCore model engines
 MODEL_CFGS = {
-    "C03": ["reuse"], "C04": ["chan"], "C10": ["exec", "stream"], "C12": ["timers"],
+    "C03": ["reuse"], "C04": ["chan"], "C10": ["exec", "stream"], "C12": [],
     "C01": ["reuse", "edge"], "C02": ["edge", "post"], "C05": ["timers"], "C06": ["reuse", "post"],
     "C07": ["edge", "timers"], "C08": ["drop", "idle"], "C09": ["post", "life"], "C13": ["idle"],
     "C14": ["life", "synth"], "C15": ["faults", "life"], "C16": ["edge", "reuse"],
 }
 
 
+# simulation configurations, where they differ from the exhaustive ones (C12: the exhaustive run of the timers
+# configuration belongs to C05 / C07; C12 replays its behaviours and has its own model, Timeout.tla)
+SIM_CFGS = {"C12": ["timers"]}
+
 # small configurations of which ALL behaviours are replayed on the real crate
 MODEL_ENUMS = {
     "C01": ["reuse"], "C02": ["post"], "C03": [], "C04": ["chan"], "C05": ["timers"], "C06": ["reuse"], "C07": ["edge"],
-    "C08": ["drop"], "C09": ["life", "post"], "C10": ["exec", "stream"], "C12": ["timers"], "C13": ["idle"], "C14": ["life"],
+    "C08": ["drop"], "C09": ["life", "post"], "C10": ["exec", "stream"], "C12": [], "C13": ["idle"], "C14": ["life"],
     "C15": ["faults"], "C16": ["edge"],
 }
 
@@ -340,7 +344,7 @@ def engine_sim(prop, tier, seed, work):
     import model_scn
     res = Result()
     n = 30 if tier == "quick" else 600
-    todo = [("sim", x) for x in MODEL_CFGS[prop]] + [("enum", x) for x in MODEL_ENUMS.get(prop, [])]
+    todo = [("sim", x) for x in SIM_CFGS.get(prop, MODEL_CFGS[prop])] + [("enum", x) for x in MODEL_ENUMS.get(prop, [])]
     for mode, name in todo:
         cfg = "mc/%s_%s.cfg" % (mode, name)
         meta = os.path.join(work, "simmeta_" + name)
